@@ -346,6 +346,8 @@ class StmtMixin:
 
     # ------------------------------------------------------------------ loops
     def loop_spec(self, node):
+        if id(node) in self.synthetic_loops:
+            return self.synthetic_loops[id(node)]
         ordinal = self.loop_ordinals.get(id(node))
         c = self.reg.contracts.get(self.cur_qual)
         if ordinal is None:
@@ -423,6 +425,8 @@ class StmtMixin:
 
         def inv_env(state, k):
             env = dict(state.env)
+            if state.out is not None:
+                env["OUT"] = state.out
             if is_for:
                 env["_k"] = V(INT, k)
                 env["_n"] = V(INT, n)
@@ -435,10 +439,13 @@ class StmtMixin:
 
         top_entry = st.top
         loop_allowed = []
+        menv = dict(st.env)
+        if st.out is not None:
+            menv["OUT"] = st.out
         for entry in spec.modifies:
             if entry == "fresh":
                 continue
-            loop_allowed.append(self.resolve_mod(entry, st.env, st))
+            loop_allowed.append(self.resolve_mod(entry, menv, st))
 
         def havoced(allocates: bool) -> State:
             h = st.fork()
@@ -452,7 +459,7 @@ class StmtMixin:
                         pass
             for region, addr in loop_allowed:
                 self.havoc_region(h, region, addr)
-                if region == "dict" and addr.get_id() in self._mod_values:
+                if region == "dict" and addr is not None and addr.get_id() in self._mod_values:
                     dv = self._mod_values[addr.get_id()]
                     if dv.kind.target.k is not None:
                         h.assume(self.dict_wf(h, dv))
